@@ -46,7 +46,7 @@ IsStep == cur.op # "Reset"
 
 IsApp(e) == e.op \in {"AppWrite", "AppWrite2", "AppGrow", "AppGrowWrite", "AppShrink", "AppDelete", "AppReclaim", "AppVacuum", "AppDDL", "AppBegin", "AppSpill",
                       "AppCommit", "AppRollback", "AppCheckpoint", "AppClose", "AppOpen", "ReaderOpen", "ReaderClose"}
-IsLs(e)  == e.op \in {"LsOpen", "LsSync", "LsReplicaSync", "LsSyncAndWait", "LsCheckpoint", "LsClose", "LsReset",
+IsLs(e)  == e.op \in {"ParStep", "ParEnd", "LsOpen", "LsSync", "LsReplicaSync", "LsSyncAndWait", "LsCheckpoint", "LsClose", "LsReset",
                       "Snapshot", "Compact", "CkStart", "CkStep"}
 \* a litestream checkpoint, either as one call (LsCheckpoint) or step by step (CkStart, CkStep: res = "at" while parked at a hook)
 IsChk(e) == e.op \in {"LsCheckpoint", "CkStart", "CkStep"}
@@ -106,6 +106,8 @@ Next ==
                \cup (IF (Len(Created(e)) > 0 \/ e.ack) /\ lost0 /\ p.wal.exists /\ p.wal.gen # c.gen /\ p.wal.valid < c.end THEN {"F2"} ELSE {})
                \* G1: a litestream checkpoint failed after its PRAGMA had destroyed frames that were never copied
                \cup (IF byChk THEN {"G1"} ELSE {})
+               \* Z1: a sync/checkpoint acquired the executor of a DB that was no longer open (check-then-act in Store.SyncDB / DB.Sync)
+               \cup (IF e.op = "ParStep" /\ ((e.res = "exec.acquired" /\ ~e.open) \/ e.res = "exec.acquired|closed") THEN {"Z1"} ELSE {})
                \* F3: local state reset on a running DB (what auto-recover does)
                \cup (IF e.op = "LsReset" /\ e.res = "ok" /\ p.up THEN {"F3"} ELSE {})
           /\ idleN' = IF IsSync(e) /\ e.res = "ok" THEN idleN + 1 ELSE IF IsApp(e) /\ e.res # "skip" THEN 0 ELSE idleN
@@ -220,6 +222,19 @@ C05_CatchesUp_ ==
           /\ prev.faultsLeft = 0 /\ cur.res # "skip") => cur.ack
 
 -----------------------------------------------------------------------------
+(* C12: concurrent daemon operations (Par blocks: real goroutines interleaved at the verif hooks as a schedule says). *)
+(* ParStep lines are mid-operation states; the clauses are judged when every call has returned (ParEnd and later).     *)
+Quiescent == IsStep /\ cur.op # "ParStep"
+C12_AllCallsReturn_ == (IsStep /\ cur.op = "ParEnd") => cur.res = "ok"
+\* closing always completes and leaves the source free of litestream's read lock and open handles
+C12_NoLeakAfterClose_ == (Quiescent /\ ~cur.open) => (~cur.hasRead /\ ~cur.handles)
+\* registering the same path concurrently yields exactly one managed instance
+C12_SingleInstance_ == (IsStep /\ cur.op = "ParEnd") => cur.ndbs <= 1
+\* the probe: with litestream closed and no application reader, the application's TRUNCATE checkpoint is not blocked
+C12_SourceNotPinned_ ==
+  (IsStep /\ cur.op = "AppCheckpoint" /\ cur.arg = "TRUNCATE" /\ ~prev.open /\ ~cur.reader /\ ~cur.inTx) => cur.res # "busy"
+
+-----------------------------------------------------------------------------
 \* A false invariant is reported as a VERDICT line and evaluation continues; the shapes of known findings present in
 \* the trace are printed with it (HAZARD lines) so that the runner can tell a listed finding from a new violation.
 V(name, ok) == ok \/ (/\ PrintT(<<"VERDICT", name, l, cur.t, cur.i>>)
@@ -235,6 +250,10 @@ C05_Level0Gapless == V("C05_Level0Gapless", C05_Level0Gapless_)
 C05_AckMeansStored == V("C05_AckMeansStored", C05_AckMeansStored_)
 C05_AlwaysRestorable == V("C05_AlwaysRestorable", C05_AlwaysRestorable_)
 C05_CatchesUp == V("C05_CatchesUp", C05_CatchesUp_)
+C12_AllCallsReturn == V("C12_AllCallsReturn", C12_AllCallsReturn_)
+C12_NoLeakAfterClose == V("C12_NoLeakAfterClose", C12_NoLeakAfterClose_)
+C12_SingleInstance == V("C12_SingleInstance", C12_SingleInstance_)
+C12_SourceNotPinned == V("C12_SourceNotPinned", C12_SourceNotPinned_)
 C01_RestoreEqualsSource == V("C01_RestoreEqualsSource", C01_RestoreEqualsSource_)
 C01_RestoreIntegrity == V("C01_RestoreIntegrity", C01_RestoreIntegrity_)
 C04_AckMeansReplicaAtLocalPos == V("C04_AckMeansReplicaAtLocalPos", C04_AckMeansReplicaAtLocalPos_)
